@@ -1,6 +1,6 @@
 (* C08 — Network-layer headers and messages encode and decode faithfully.
    Property theorems only; proofs live in Bac.NpciFacts / Bac.NpciMsgFacts, the model in Bac.Npci. *)
-From Bac Require Import Base Npci NpciFacts NpciMsgFacts NpciSound NpciBodyFacts NpciRegistry.
+From Bac Require Import Base Npci NpciFacts NpciMsgFacts NpciSound NpciBodyFacts NpciRegistry NpciReenc.
 From BacGen Require Import NpduRegistry.
 Open Scope N_scope.
 
@@ -231,6 +231,30 @@ Theorem C08_decode_history_independent : forall before before' after o,
 Proof. exact history_independent. Qed.
 Print Assumptions C08_decode_history_independent.
 
+(* ---- reserved control bits.  For EVERY header value (no well-formedness assumed, any priority, any stored
+   history): whatever NPCI.encode / NPDU.encode write starts with the version and the control octet control_of h,
+   and bits 6 and 4 of that octet are clear (clause 6.2.2) *)
+Theorem C08_encode_reserved_bits_clear : forall h payload bs, enc_npdu h payload = Ok bs ->
+  exists rest, bs = ver h :: control_of h :: rest /\ N.land (control_of h) 0x50 = 0.
+Proof. exact enc_npdu_control. Qed.
+Print Assumptions C08_encode_reserved_bits_clear.
+
+(* decode any octets, then encode the same object again: always succeeds and gives the canonical clause 6.2
+   frame of the decoded fields followed by the decoded payload; its control octet is the received one with
+   bits 6 and 4 cleared; and that frame decodes to the same fields *)
+Theorem C08_reencode_canonical : forall bs c h r, bytes_ok bs = true -> dec_npci bs = Ok (c, h, r) ->
+  reenc bs = Ok (spec6_2 h ++ r)
+  /\ spec_control h = N.land c 0xAF
+  /\ dec_npci (spec6_2 h ++ r) = Ok (N.land c 0xAF, h, r).
+Proof. exact reenc_canonical. Qed.
+Print Assumptions C08_reencode_canonical.
+
+(* fields decoded from octets are always well-formed (so every theorem above applies to them) *)
+Theorem C08_decoded_fields_wf : forall bs c h r, bytes_ok bs = true -> dec_npci bs = Ok (c, h, r) ->
+  wf_npci h = true /\ spec_control h = N.land c 0xAF /\ c < 256.
+Proof. exact dec_npci_wf. Qed.
+Print Assumptions C08_decoded_fields_wf.
+
 (* ---- non-vacuity: the hypotheses are satisfiable, with every optional field exercised *)
 Example C08_wf_examples :
   forallb wf_npci
@@ -280,4 +304,12 @@ Example C08_body_examples :
   /\ dec_msg 5 (put_nets [1; 2] ++ [0; 9]) = Ok (RouterAvailable [1; 2; 9], [])
   /\ run_history [OpDecMsg 5 [0;1]; OpDecMsg 5 [0;2]; OpEncMsg (RouterAvailable [])]
      = [RDecMsg (Ok (RouterAvailable [1], [])); RDecMsg (Ok (RouterAvailable [2], [])); REncMsg (Ok [])].
+Proof. vm_compute. repeat split; reflexivity. Qed.
+
+Example C08_reenc_examples :
+  reenc [1; 0x6C; 0; 5; 1; 9; 0; 2; 1; 44; 7; 0xAA] = Ok [1; 0x2C; 0; 5; 1; 9; 0; 2; 1; 44; 7; 0xAA]   (* bit 6 dropped *)
+  /\ reenc_fwd (mkFwd (Some (RStation 3 [8])) false) [1; 0x70; 0; 5; 1; 9; 7; 0xAA]
+     = Ok (Some [1; 0x28; 0; 5; 1; 9; 0; 3; 1; 8; 6; 0xAA])          (* bits 6,4 dropped, SADR added, hop count 6 *)
+  /\ reenc_fwd (mkFwd None true) [1; 0x20; 0; 5; 1; 9; 0] = Ok None                                   (* hop count 0 *)
+  /\ reenc_frame [1; 0xD0; 5; 0; 1; 0; 2] = Ok [1; 0x80; 5; 0; 1; 0; 2].
 Proof. vm_compute. repeat split; reflexivity. Qed.
